@@ -50,14 +50,17 @@ CLAIMED = {
          "10 theorems, no axioms; the effect of core.sync on a Babbling node is data; handlers are called synchronously: the concurrent check-then-act "
          "window between the gate and a handler is not covered",
          "Coq invariant proof over input lists + per-request correspondence with real Nodes + implementation oracles"),
- "C20": ("Retry loop of both socket clients, the net/rpc + jsonrpc error conventions and the JSON field mapping of Block / CommitResponse / transactions "
-         "(base64 at digit level, nil vs empty, invalid UTF-8) modelled in Coq; proved: a success is the reply of the first attempt that went through, "
-         "all attempts failing is an error, at most three attempts / deliveries, the mapping is the identity on content (nil and empty kept apart) for "
-         "valid-UTF-8 strings. Three refutation witnesses are findings replayed on the Go code: an empty error message is reported as an empty success, "
-         "a nil snapshot / state hash is reported as an error, invalid UTF-8 strings are sanitised. Tied to the code by real socket proxies in both "
-         "directions through a fault-injecting message-aware relay next to the inmem proxy",
-         "15 theorems (3 refutations), no axioms; TCP, net/rpc, timeouts are runtime; a retried call is delivered again (noted, at-least-once)",
-         "Coq theorems (induction over attempt lists, base64 round trip) + model/implementation correspondence + content / order / failure oracles"),
+ "C20": ("Retry loop of both socket clients, the net/rpc + jsonrpc error conventions, the socket server methods' normalisation (handler error message never "
+         "empty, nil byte-slice reply sent as empty), peers.NewPeer's UTF-8 normalisation and the JSON field mapping of Block / CommitResponse / transactions "
+         "(base64 at digit level, nil vs empty, invalid UTF-8) modelled in Coq; proved: a success is the reply of the first attempt that went through, all "
+         "attempts failing is an error, at most three attempts / deliveries; a call the application handled in none of its attempts is an error whatever the "
+         "error message, a call it handled is a success with its reply also when that is a nil slice; the mapping is the identity on content (nil and empty "
+         "kept apart) for every block whose peers come from NewPeer with arbitrary address / moniker strings. Three defects found by this check are fixed in "
+         "/repo (ebb9c0a, faf0201, b2c4118); their inputs are permanent regression inputs. Tied to the code by real socket proxies in both directions through "
+         "a fault-injecting message-aware relay next to the inmem proxy",
+         "22 theorems, no axioms; TCP, net/rpc, timeouts are runtime; a retried call is delivered again (noted, at-least-once); key / signature strings "
+         "assumed encoder outputs; a Peer struct literal with a stray byte is still altered by JSON (control case)",
+         "Coq theorems (induction over attempt lists, base64 round trip, ToValidUTF8 model) + model/implementation correspondence + content / order / failure oracles"),
  "C12": ("Decision rule of core.fastForward / Node.fastForward modelled in Coq (CheckBlock over the signature MAP with re-spelled keys, peer-set and frame digests, "
          "Reset outcome as data, Restore-then-check order, highest-index selection). Proved for the unchanged code: adoption => both digests match and more than "
          "TrustCount verifying map ENTRIES of members; order-independence of the map iteration; a response refused by the checks leaves the core untouched. "
@@ -75,6 +78,15 @@ CLAIMED = {
          "7 theorems, no axioms; known sets = configured peers, genesis peers, validators, store peer sets; the repair's residual (a KNOWN validator shrinking the set to "
          "itself; stale peers.json refusing honest responses after many joins) is stated in FINDINGS.md",
          "Coq decision-rule theorems + refutation witnesses + forged-response correspondence + implementation oracle"),
+ "C15": ("Field-level model of events, blocks and frames (nil vs empty slices, nil pointers, maps in insertion order, strings with invalid bytes) with the "
+         "JSON codecs as abstract syntax: proved in Coq that ToWire/ReadWireInfo on a store satisfying the admission invariant, encoding/json, MarshalDB/UnmarshalDB "
+         "and the frame codec give back an object with the same digest input (hence the same hash under any hash function), the same signature and payload, which "
+         "private fields survive the database form, and that the frame digest is invariant under the fill order of Roots and PeerSets. The unconditional statement "
+         "is refuted with concrete witnesses replayed on the real code (two findings). Tied to the code by pushing the shape product through the real conversions "
+         "(TCP and in-memory transports, BadgerStore) and comparing the whole resulting object with the extracted model",
+         "17 theorems, no axioms; hashes modelled by their input (collision resistance assumed), base64/hex abstract; premises: two parent slots, own block "
+         "signatures, valid UTF-8 (all produced by correct nodes); out-of-domain shapes are generated too and must deviate as the model predicts",
+         "Coq round-trip theorems over a JSON abstract syntax + refutation witnesses + object-level correspondence on the shape product + implementation oracle"),
  "C16": ("Store model (LRU, RollingIndex with roll, InmemStore, BadgerStore as cache+DB) proved to refine a plain map for all operation sequences and all cache "
          "sizes under the admission discipline, also across reopen; cache coherence unconditionally; listings exact; the deviations of the real store from a "
          "plain map are proved as refutation witnesses (W1-W5). Tied to the code by replaying every operation of generated sequences on the real BadgerStore",
